@@ -1,28 +1,39 @@
-// IDEA round trip (C01).  The direct query (real mul / mul_inv, Euclid loop) runs out of memory, so:
-//   L  idea_leaf_cancel      mul(mul(x,k), mul_inv(k)) == x  and  mul(mul(x, mul_inv(k)), k) == x   (real code, all 2^32 (x,k))
-//   W  idea_roundtrip_ed/de  Idea::new(key) (real expand_key / invert_sub_keys / add / add_inv / crypt), all 2^128 keys and all
-//                            2^64 blocks, with mul and mul_inv replaced by uninterpreted functions that are constrained ONLY by
-//                            functional consistency and by instances of the two cancellation laws of the leaf lemma.
-// Soundness: the real pair (mul, mul_inv) satisfies every constraint placed on the uninterpreted pair (leaf lemma), so a
-// verdict for all constrained pairs covers the real pair.
+// IDEA round trip (C01).  The direct query (real mul / mul_inv with its Euclid loop) runs out of memory, and the combined
+// leaf statement mul(mul(x,k), mul_inv(k)) == x is a multiplier-associativity query no SAT solver finishes.  So:
+//   L  idea_leaf_mul (conf.rs)   Idea::mul(a,b) == a*b mod 65537 (0 = 2^16) for all 2^32 (a,b)           [solver]
+//   L  idea_leaf_inv (conf.rs)   mul(k, mul_inv(k)) == 1 for all 2^16 k                                   [solver]
+//      => by arithmetic (the non-zero residues mod the prime 65537 form a commutative group; not a property of the code):
+//         mul(mul(x,k), mul_inv(k)) == x  and  mul(mul(x, mul_inv(k)), k) == x  for all x, k             [cancellation laws]
+//   W  idea_roundtrip_ed/de      Idea::new(key) (real expand_key / invert_sub_keys / add / add_inv / crypt), all 2^128 keys and
+//                                all 2^64 blocks, with mul and mul_inv replaced by uninterpreted functions constrained ONLY by
+//                                functional consistency and by instances of the two cancellation laws.
+// Soundness: the real pair (mul, mul_inv) satisfies every constraint placed on the uninterpreted pair, so a verdict for all
+// constrained pairs covers the real pair.
 use super::prelude::*;
 use crate::Idea;
 use cipher::{BlockCipherDecrypt, BlockCipherEncrypt, KeyInit};
 use refmodels::idea as r;
 
 /// Uninterpreted (mul, mul_inv) with cancellation: logs in banks of <= 64 entries (see common/uf.rs).
+/// All mul_inv calls of the harness (Idea::new) precede all mul calls (encrypt/decrypt); a mul_inv call after the first
+/// mul call is flagged (LATE) because its cancellation instances would be missing (fewer constraints is still sound, but the
+/// harness states what it relies on).
 pub mod g {
     #[cfg(kani)]
     pub mod m0 {
         pub static mut A: [u16; 64] = [0; 64];
         pub static mut B: [u16; 64] = [0; 64];
         pub static mut Y: [u16; 64] = [0; 64];
+        pub static mut MK: [u64; 64] = [0; 64]; // bit j: B == K[j]   (second argument is the argument of the j-th mul_inv call)
+        pub static mut MV: [u64; 64] = [0; 64]; // bit j: B == V[j]   (second argument is the result of the j-th mul_inv call)
     }
     #[cfg(kani)]
     pub mod m1 {
         pub static mut A: [u16; 64] = [0; 64];
         pub static mut B: [u16; 64] = [0; 64];
         pub static mut Y: [u16; 64] = [0; 64];
+        pub static mut MK: [u64; 64] = [0; 64];
+        pub static mut MV: [u64; 64] = [0; 64];
     }
     #[cfg(kani)]
     pub mod i0 {
@@ -33,11 +44,15 @@ pub mod g {
     pub static mut NM: usize = 0;
     #[cfg(kani)]
     pub static mut NI: usize = 0;
+    pub static mut LATE: bool = false;
 
     /// mul_inv: functional consistency only.
     #[cfg(kani)]
     pub fn inv(k: u16) -> u16 {
         unsafe {
+            if NM != 0 {
+                LATE = true;
+            }
             let v: u16 = kani::any();
             let n = NI;
             let mut ok = true;
@@ -55,22 +70,13 @@ pub mod g {
         }
     }
 
-    // one earlier mul entry (x, k) -> y against the new call (a, b) -> r:
-    //   consistency:  (x, k) == (a, b)                       => r == y
-    //   cancellation: a == y and {k, b} == {kk, vv} for a logged mul_inv pair (kk -> vv)   => r == x
+    // one earlier mul entry (x, k) -> y [masks mk, mv of k] against the new call (a, b) -> r [masks bk, bv of b]:
+    //   consistency:  (x, k) == (a, b)                                                     => r == y
+    //   cancellation: a == y and (k, b) or (b, k) is a logged mul_inv pair (argument, result)  => r == x
     #[cfg(kani)]
-    unsafe fn entry(x: u16, k: u16, y: u16, a: u16, b: u16, r: u16) -> bool {
-        let mut ok = (x != a) | (k != b) | (r == y);
-        let ni = NI;
-        let mut j = 0;
-        while j < 64 && j < ni {
-            let kk = i0::K[j];
-            let vv = i0::V[j];
-            let pair = ((k == kk) & (b == vv)) | ((k == vv) & (b == kk));
-            ok &= !((a == y) & pair) | (r == x);
-            j += 1;
-        }
-        ok
+    fn entry(x: u16, k: u16, y: u16, mk: u64, mv: u64, a: u16, b: u16, r: u16, bk: u64, bv: u64) -> bool {
+        let pair = ((mk & bv) | (mv & bk)) != 0;
+        ((x != a) | (k != b) | (r == y)) & (!((a == y) & pair) | (r == x))
     }
 
     #[cfg(kani)]
@@ -78,15 +84,28 @@ pub mod g {
         unsafe {
             let r: u16 = kani::any();
             let n = NM;
+            let ni = NI;
+            let mut bk = 0u64;
+            let mut bv = 0u64;
+            let mut j = 0;
+            while j < 64 && j < ni {
+                if b == i0::K[j] {
+                    bk |= 1u64 << j;
+                }
+                if b == i0::V[j] {
+                    bv |= 1u64 << j;
+                }
+                j += 1;
+            }
             let mut ok = true;
             let mut i = 0;
             while i < 64 && i < n {
-                ok &= entry(m0::A[i], m0::B[i], m0::Y[i], a, b, r);
+                ok &= entry(m0::A[i], m0::B[i], m0::Y[i], m0::MK[i], m0::MV[i], a, b, r, bk, bv);
                 i += 1;
             }
             i = 0;
             while i < 64 && 64 + i < n {
-                ok &= entry(m1::A[i], m1::B[i], m1::Y[i], a, b, r);
+                ok &= entry(m1::A[i], m1::B[i], m1::Y[i], m1::MK[i], m1::MV[i], a, b, r, bk, bv);
                 i += 1;
             }
             kani::assert(n < 128, "VERIF_UF_CAPACITY");
@@ -94,10 +113,14 @@ pub mod g {
                 m0::A[n] = a;
                 m0::B[n] = b;
                 m0::Y[n] = r;
+                m0::MK[n] = bk;
+                m0::MV[n] = bv;
             } else {
                 m1::A[n - 64] = a;
                 m1::B[n - 64] = b;
                 m1::Y[n - 64] = r;
+                m1::MK[n - 64] = bk;
+                m1::MV[n - 64] = bv;
             }
             kani::assume(ok);
             NM = n + 1;
@@ -119,23 +142,7 @@ pub fn stub_mul_inv(_c: &Idea, a: u16) -> u16 {
     return r::mul_inv(a);
 }
 
-//@ harness name=idea_leaf_cancel prop=C01 tier=thorough bits=32 est=1500 desc="L: for the real Idea::mul / Idea::mul_inv and all 2^32 (x,k): mul(mul(x,k), mul_inv(k)) == x and mul(mul(x, mul_inv(k)), k) == x (multiplication by a sub-key is undone by multiplication by its inverse, in either order)"
-verif_harness! {
-    name: idea_leaf_cancel,
-    bytes: 4,
-    unwind: 11,
-    prop: |inp| {
-        let x = take_u16(inp, 0);
-        let k = take_u16(inp, 2);
-        let c = Idea { enc_keys: [0u16; 52], dec_keys: [0u16; 52] };
-        let v = c.mul_inv(k);
-        vcheck!(c.mul(c.mul(x, k), v) == x);
-        vcheck!(c.mul(c.mul(x, v), k) == x);
-        Some(true)
-    }
-}
-
-//@ harness name=idea_roundtrip_ed prop=C01 tier=quick bits=192 stub=1 est=120 desc="W: decrypt_block(encrypt_block(b)) == b for Idea::new(key), all 2^128 keys, all 2^64 blocks; real key schedule, sub-key inversion placement, add, add_inv and data path; mul / mul_inv uninterpreted up to the cancellation laws of idea_leaf_cancel"
+//@ harness name=idea_roundtrip_ed prop=C01 tier=quick bits=192 stub=1 est=120 desc="W: decrypt_block(encrypt_block(b)) == b for Idea::new(key), all 2^128 keys, all 2^64 blocks; real key schedule, sub-key inversion placement, add, add_inv and data path; mul / mul_inv uninterpreted up to the cancellation laws that follow from idea_leaf_mul + idea_leaf_inv"
 verif_harness! {
     name: idea_roundtrip_ed,
     bytes: 24,
@@ -148,11 +155,11 @@ verif_harness! {
         let mut b = blk.into();
         c.encrypt_block(&mut b);
         c.decrypt_block(&mut b);
-        Some(b.0 == blk)
+        Some(b.0 == blk && !unsafe { g::LATE })
     }
 }
 
-//@ harness name=idea_roundtrip_de prop=C01 tier=quick bits=192 stub=1 est=120 desc="W: encrypt_block(decrypt_block(b)) == b for Idea::new(key), all keys, all blocks; mul / mul_inv uninterpreted up to the cancellation laws of idea_leaf_cancel"
+//@ harness name=idea_roundtrip_de prop=C01 tier=quick bits=192 stub=1 est=120 desc="W: encrypt_block(decrypt_block(b)) == b for Idea::new(key), all keys, all blocks; mul / mul_inv uninterpreted up to the cancellation laws that follow from idea_leaf_mul + idea_leaf_inv"
 verif_harness! {
     name: idea_roundtrip_de,
     bytes: 24,
@@ -165,6 +172,6 @@ verif_harness! {
         let mut b = blk.into();
         c.decrypt_block(&mut b);
         c.encrypt_block(&mut b);
-        Some(b.0 == blk)
+        Some(b.0 == blk && !unsafe { g::LATE })
     }
 }
